@@ -25,9 +25,9 @@ func TestMain(m *testing.M) { wire.Init(false); hx.Main(m) }
 
 var hostileWeights = []string{"Inf", "-Inf", "+Inf", "inf", "Infinity", "NaN", "nan", "1e308", "1.7976931348623157e308", "5e-324", "1e-320", "-0", "1e400", "0x1p-3", "0x1p1023", "1e-400", "9999999999999999999999", "-1e308", "1e-5", "0.00001", "1_0", "١", ""}
 var saneWeights = []string{"0.5", "0.25", "1", "0", "0.1", "2", "-1"}
-var hostileHosts = []string{"[a", "{a,b", "a{", `\`, "*", "**", "?", "[!a]", "[a-", "{", `a\`, "[]", "[^]", "[::1]", "[::1", "a[b]c", "{a,b}.com", "*.{", "\x00", "\xff\xfe", "h x", "é.com", "*.*.*", "a:b:c", ":80", ":", "::", "-", ".", "a..b", "[a][", "{{}}", "{,}", "[\\]", "*[", "?{"}
+var hostileHosts = []string{"a@b.com", "a|b.com", "[a", "{a,b", "a{", `\`, "*", "**", "?", "[!a]", "[a-", "{", `a\`, "[]", "[^]", "[::1]", "[::1", "a[b]c", "{a,b}.com", "*.{", "\x00", "\xff\xfe", "h x", "é.com", "*.*.*", "a:b:c", ":80", ":", "::", "-", ".", "a..b", "[a][", "{{}}", "{,}", "[\\]", "*[", "?{"}
 var saneHosts = []string{"", "foo.com", "*.foo.com", "bar.com:8080", "Foo.COM"}
-var hostilePaths = []string{"/[a", "/{x", `/a\`, "/**", "/?", "/{a,b}", "/[", "/]", "/{", "/a{b", "/\x00", "/\xff", "/%zz", "/[!", "/[a-", "/*[", "/{,", "/\\", "/[\\"}
+var hostilePaths = []string{"/@me", "/a|b", "/a@b|c:d", "/~user@host", "/[a", "/{x", `/a\`, "/**", "/?", "/{a,b}", "/[", "/]", "/{", "/a{b", "/\x00", "/\xff", "/%zz", "/[!", "/[a-", "/*[", "/{,", "/\\", "/[\\"}
 var sanePaths = []string{"/", "/a", "/a/b", "/x*"}
 var hostileDsts = []string{"http://[::1", "%zz", "http://h:1/\x7f", "tcp://:0", ":1", "//", "http://h:99999/", "http://%41/", "http://h/%zz", "http://h:1/$path", "https://$host$path", "http://[fe80::1%25eth0]:80/", "http://user:pass@h:1/", "h:1", "/only/path", "http://h:x/", "http://", "?", "#", "http://h:1/?a=%zz", "ht!tp://x", "\x00", "http://\xff/", "http://h:1/#frag", "1://x"}
 var saneDsts = []string{"http://10.0.0.1:80/", "https://h.example:443/", "tcp://10.0.0.2:5000", "http://10.0.0.3:8080/base?x=1"}
